@@ -30,3 +30,25 @@ CLAIMS["C05"] = dict(
           "ctype semantics and 8-bit signed plain char."),
     technique="AST/CFG dataflow rules: byte-domain index evaluation, must-assign, error-status discipline, typestate on out-parameters, call-graph reachability",
     design_ref="DESIGN.md section 3, C05 (R05a-R05i)")
+
+CLAIMS["C01"] = dict(
+    text=("Decides four structural clauses that the anchors of the property name: (R01a) on every CFG path of kalign_run / "
+          "kalign to a success return the pipeline stages run in order (input check, de-align, canonical sort, tree, merge, "
+          "finalise, rank sort); (R01b) msa_seq.rank is written only by the input check / copies / constructors and read "
+          "only by the ascending rank comparator; (R01c) every store into a row buffer and every residue print in the "
+          "export functions is a residue copied from msa_seq.seq, '-' or NUL; (R01d) exporters are gated on "
+          "ALN_STATUS_FINAL, assigned only after finalise_alignment's row loop, and the status values are pairwise distinct."),
+    note=("Clauses only: the gap arithmetic (make_seq, update_gaps, add_gap_info_to_path_n, mirror_path_n), equal row "
+          "lengths and absence of all-gap columns are sums over run-time arrays and are NOT decided."),
+    technique="CFG must-pass-through, who-may-read/write table, store provenance, typestate gate",
+    design_ref="DESIGN.md section 3, C01 (R01a-R01d)")
+
+CLAIMS["C03"] = dict(
+    text=("Decides non-interference of the caller's order with the computation: the canonical (len,name) sort dominates "
+          "every positional consumer; its comparator reads len and name only, over the full name span; rank is write-only "
+          "until the final ascending rank sort; nothing reachable from kalign_run draws random numbers, reads a clock into "
+          "data, orders pointers or turns them into integers; only the input check and the two sorts permute sequences."),
+    note=("Assumes distinct names (premise) and that the computation between the sorts is a deterministic function of "
+          "memory contents (C02/C16 rules). Names sharing a 256-byte prefix are outside what is decided."),
+    technique="information-flow by who-may-read + call-graph reachability + CFG dominance",
+    design_ref="DESIGN.md section 3, C03 (R03a-R03e)")
